@@ -111,7 +111,7 @@ class C04(core.Check):
                                        'means:org', 'means:zone-org', 'means:memzone', 'means:zerountil', 'means:predefined',
                                        'means:align', 'means:created-zone', 'order:ascending', 'order:descending',
                                        'order:interleaved', 'overlap:non-adjacent', 'expect:REJECT', 'expect:ACCEPT',
-                                       'output:bin', 'output:nobin', 'output:both']}
+                                       'output:bin', 'output:nobin', 'output:both', 'window-excludes-the-overlap']}
 
     def build(self, rng, items, means_list=None, order=None, mute=None, out_mode=None):
         """items: [(addr, len)]"""
@@ -188,8 +188,27 @@ class C04(core.Check):
             out_mode = rng.choice(['bin', 'bin', 'bin', 'nobin', 'both'])
         tags.add('output:' + out_mode)
         argv = ['compile', '-c', fn, 'p.asm']
+        window = ['-e', str(end)]
+        if kind == 'REJECT' and rng.random() < 0.5:
+            # an image window that leaves the overlapping bytes out (but keeps some other byte in): still an overlap
+            live = [(a, a + l - 1) for a, l in ivs if l > 0]
+            both = sorted(set(range(pair[0][0], pair[0][1] + 1)) & set(range(pair[1][0], pair[1][1] + 1))) if pair else []
+            if both:
+                lo, hi = both[0], both[-1]
+                opts = []
+                if lo > 0 and any(s_ < lo for s_, _ in live):
+                    opts.append(['-e', str(lo - 1)])
+                    opts.append(['-s', '0', '-e', str(min(s_ for s_, _ in live))])
+                if any(e_ > hi for _, e_ in live):
+                    opts.append(['-s', str(hi + 1)])
+                    opts.append(['-s', str(max(e_ for _, e_ in live)), '-e', str(end)])
+                if opts:
+                    window = rng.choice(opts)
+                    tags.add('window-excludes-the-overlap')
         if out_mode in ('bin', 'both'):
-            argv += ['-o', 'out.bin', '-e', str(end)]
+            argv += ['-o', 'out.bin'] + window
+        elif window[0] != '-e' or len(window) > 2 or window[1] != str(end):
+            argv += window
         if out_mode in ('nobin', 'both'):
             argv += (['-n'] if out_mode == 'nobin' else []) + ['-p', '-t', 'intel_hex', '--pretty-print-output', 'out.hex']
         return {'runs': [{'files': {fn: text, 'p.asm': src}, 'argv': argv,
